@@ -331,7 +331,11 @@ impl<
         let (starts, ends) = (self.civil_starts(), self.civil_ends());
         assert!(!starts.is_empty(), "transitions is non-empty");
         let this_index = match starts.binary_search(&dtt) {
-            Err(0) => unreachable!("impossible to come before DateTime::MIN"),
+            // The first (dummy) transition starts at `Timestamp::MIN` in
+            // local time, which can be after `DateTime::MIN`. Such a civil
+            // datetime precedes all transitions. (Converting it to a
+            // timestamp will fail with a range error.)
+            Err(0) => 0,
             Ok(i) => i,
             Err(i) => i.checked_sub(1).expect("i is non-zero"),
         };
